@@ -138,6 +138,11 @@ def find_peaks(data, threshold, *, box_size=3, footprint=None, mask=None,
                       NoDetectionsWarning)
         return None
 
+    if isinstance(threshold, float):
+        # a Python float is a "weak" scalar: compared with float32 data
+        # it would first be rounded to float32
+        threshold = np.float64(threshold)
+
     if not np.isscalar(threshold):
         threshold = np.asanyarray(threshold)
         if data.shape != threshold.shape:
